@@ -144,10 +144,11 @@ contract(SCH + "._Trap", params=dict(self=SCHT, K=KEYT, keyword=TBytes), returns
 contract(SCH + "._Enc", modifies_ghost=["rng_n"], params=dict(self=SCHT, K=KEYT, database=DBT), returns=EDBT,
          requires=VALID_CFG + ["len(K.K) == self.config.param_lambda"],
          ensures=["pb_repr(dmap(result.D), self.config.param_lambda, K.K, database)",
-                  "len(result.D) == total_upto(database, len(database))"],
+                  "len(result.D) == total_upto(database, len(database))",
+                  "asc_bl(dkeys(result.D), len(result.D))"],      # C06: labels in ascending order whatever the input order
          locals={"L": PL},
-         lemmas=["A2_prf_injective", "A6_prf_len", "lmapf_frame", "distinct_frame", "dec_enc"],
-         loops={0: dict(invariant=[
+         lemmas=["A2_prf_injective", "A6_prf_len", "lmapf_frame", "distinct_frame", "dec_enc", "firsts_asc", "B3_sort_len"],
+         loops={0: dict(exit_hints=[("firsts_asc", ["sorted_pairs(L)", "len(L)"])], invariant=[
                     "pb_inv(lmapf(L, len(L)), self.config.param_lambda, K, database, it, 0)",
                     "distinct_upto(L, len(L))", "len(L) == total_upto(database, it)"]),
                 1: dict(invariant=[
@@ -155,7 +156,7 @@ contract(SCH + "._Enc", modifies_ghost=["rng_n"], params=dict(self=SCHT, K=KEYT,
                     "distinct_upto(L, len(L))", "len(L) == total_upto(database, _it0) + it",
                     "K1 == prf('sha1', self.config.param_lambda, K, b'\\x01' + keyword)",
                     "K2 == prf('sha1', self.config.param_lambda, K, b'\\x02' + keyword)"])},
-         props=["C01", "C02", "C05", "C07"])
+         props=["C01", "C02", "C05", "C06", "C07"])
 contract(SCH + "._Search", params=dict(self=SCHT, edb=EDBT, tk=TOKT), returns=REST,
          ghost=dict(gK=TBytes, gDB=DBT, gq=TBytes),
          requires=VALID_CFG + ["pb_repr(dmap(edb.D), self.config.param_lambda, gK, gDB)",
